@@ -360,3 +360,19 @@ def calc_multi(ctx, calcs):
         except Exception as e:
             out.append({'exc': type(e).__name__, 'msg': str(e)[:200]})
     return out
+
+
+@op('env_option')
+def env_option(ctx, kind, value):
+    """The user changes a process-global option of a library HoloPy builds
+    on (it stays until the interpreter ends)."""
+    if kind == 'xr_keep_attrs':
+        import xarray as xr
+        xr.set_options(keep_attrs=value)
+    elif kind == 'np_print':
+        np.set_printoptions(**value)
+    elif kind == 'np_seterr':
+        np.seterr(**value)
+    else:
+        raise ValueError(kind)
+    return None
